@@ -39,28 +39,28 @@ type LoopSpec struct {
 }
 
 type Contract struct {
-	Key      string // function key as written
-	Pkg      string // package path of the contract file ("" for spec files)
-	Params   []string
-	Results  []string
-	Serves   []string
-	Requires []*Clause
-	Ensures  []*Clause
-	Modifies []ast.Expr
-	HasMod   bool
-	Ghosts   []GhostDef
+	Key       string // function key as written
+	Pkg       string // package path of the contract file ("" for spec files)
+	Params    []string
+	Results   []string
+	Serves    []string
+	Requires  []*Clause
+	Ensures   []*Clause
+	Modifies  []ast.Expr
+	HasMod    bool
+	Ghosts    []GhostDef
 	GhostSets []GhostSet // ghost cells defined by the contract at function exit
-	Loops    map[int]*LoopSpec
-	PanicsIf []*Clause
-	Trusted  bool
-	Pure     bool
-	Fresh    bool // result is freshly allocated
-	Opts     map[string]string
-	File     string
-	Line     int
-	Relies   []string
-	AssertAt []*AssertAt
-	NoBody   bool // contract is used at call sites but body is not verified (listed as assumption)
+	Loops     map[int]*LoopSpec
+	PanicsIf  []*Clause
+	Trusted   bool
+	Pure      bool
+	Fresh     bool // result is freshly allocated
+	Opts      map[string]string
+	File      string
+	Line      int
+	Relies    []string
+	AssertAt  []*AssertAt
+	NoBody    bool // contract is used at call sites but body is not verified (listed as assumption)
 	WhyNoBody string
 }
 
@@ -178,6 +178,7 @@ type Specs struct {
 	Axioms       []*Axiom
 	Lemmas       []*Lemma
 	GhostFields  map[string]*GhostField // "bytes.Buffer.content"
+	ghostAuto    int                    // number of ghost fields with automatically assigned ids
 	ConstChecks  []*ConstCheck
 	StructChecks []*StructCheck
 	Order        []*Contract
@@ -743,12 +744,30 @@ func (sp *Specs) parseFile(path, pkgPath string) error {
 			}
 			curLemma.Vars = append(curLemma.Vars, splitNames(rest)...)
 		case "ghostfield":
-			if len(f) != 4 {
-				return errf("ghostfield TYPE NAME SORT")
+			// ghostfield TYPE NAME SORT [id=N]: ids are given in declaration order; a field added later
+			// can carry an explicit id (>= 5000) so that the ids of all other fields - which appear as
+			// numerals in every query - stay what they were
+			if len(f) != 4 && !(len(f) == 5 && strings.HasPrefix(f[4], "id=")) {
+				return errf("ghostfield TYPE NAME SORT [id=N]")
 			}
 			k := f[1] + "." + f[2]
 			if _, dup := sp.GhostFields[k]; !dup {
-				sp.GhostFields[k] = &GhostField{Type: f[1], Name: f[2], Sort: f[3], ID: 1000 + len(sp.GhostFields)}
+				id := 1000 + sp.ghostAuto
+				if len(f) == 5 {
+					n, err := strconv.Atoi(strings.TrimPrefix(f[4], "id="))
+					if err != nil || n < 5000 {
+						return errf("ghostfield id must be a number >= 5000")
+					}
+					for _, g := range sp.GhostFields {
+						if g.ID == n {
+							return errf("ghostfield id %d already used by %s.%s", n, g.Type, g.Name)
+						}
+					}
+					id = n
+				} else {
+					sp.ghostAuto++
+				}
+				sp.GhostFields[k] = &GhostField{Type: f[1], Name: f[2], Sort: f[3], ID: id}
 			}
 		case "const":
 			// const [name] serves C04 :: expr
